@@ -238,9 +238,16 @@ func (g *Generator) program() ([]byte, []byte) {
 			g.snippet(rt, k, uint64(10+i))
 		}
 	}
-	if g.r.Chance(0.3) {
+	switch {
+	case g.r.Chance(0.25):
 		rt.push(uint64(g.r.Intn(1 << 30))).push(0).op(opMSTORE).push(32).push(0).op(opRETURN)
-	} else {
+	case g.r.Chance(0.4):
+		// return BALANCE(word0) and BALANCE(word5): read-only calls then depend on the native ledger
+		rt.push(0).op(opCALLDATALOAD, opBALANCE).push(0).op(opMSTORE)
+		rt.push(5 * 32).op(opCALLDATALOAD, opBALANCE).push(32).op(opMSTORE)
+		rt.op(opSELFBALANCE).push(64).op(opMSTORE)
+		rt.push(96).push(0).op(opRETURN)
+	default:
 		rt.op(opSTOP)
 	}
 	pro := &asm{}
